@@ -14,6 +14,10 @@ func genC19(seed uint64, tier string, idx int) *Plan {
 	p, g := newAttPlan("C19", seed, tier)
 	p.Att.DefaultFile = true
 	p.Att.Cwd = simCwd
+	if p.Att.Dialect != 2 && g.r.chance(12) {
+		p.Att.CustomData = true // a user-written data handler in front of the default file handler
+		p.Faults = append(p.Faults, "config.custom_data_handler")
+	}
 	// files and directories outside any terminal's directory that a hostile name could hit
 	p.Files = []FilePlan{
 		{Path: "/etc/passwd", Data: []byte("root:x:0:0")},
